@@ -32,6 +32,8 @@ const (
 	poolShort     = 10 * time.Millisecond
 	poolMedium    = 810 * time.Millisecond // > KeepAlive + margin, < IdleConnTimeout - margin (measured from last use)
 	poolLong      = 3300 * time.Millisecond
+	poolAlmost    = 210 * time.Millisecond // well below KeepAlive
+	poolGap       = 250 * time.Millisecond // almost + gap is well above KeepAlive, gap alone well below
 )
 
 type pconn struct {
@@ -219,6 +221,9 @@ type poolEnv struct {
 	closeGate         chan struct{}
 	parkedClose       int
 	nowait            map[int]bool
+	hookArm           bool          // the next Transport.Call parks between getConn and the call
+	hookGate          chan struct{} // … until this is closed
+	atHook            map[int]bool  // calls parked there
 }
 
 func (e *poolEnv) noteCarried(k int, c *pconn) {
@@ -276,7 +281,22 @@ func (s poolScenario) header() string {
 
 func newPoolEnv(sc poolScenario) *poolEnv {
 	e := &poolEnv{up: map[string]bool{"A": true, "B": true, "C": true}, open: map[string]int{}, maxOpen: map[string]int{}, calls: map[int]*pcall{}, holdCall: map[int]bool{},
-		closeGate: make(chan struct{}), nowait: map[int]bool{}}
+		closeGate: make(chan struct{}), nowait: map[int]bool{}, atHook: map[int]bool{}}
+	rpc.VerifHook = func(point string) {
+		if point != "transport.call.handed" {
+			return
+		}
+		e.mu.Lock()
+		arm, gate := e.hookArm, e.hookGate
+		e.hookArm = false
+		e.mu.Unlock()
+		if arm {
+			select {
+			case <-gate:
+			case <-time.After(20 * time.Second):
+			}
+		}
+	}
 	e.t = &rpc.Transport{MaxConnsPerHost: sc.MaxConns, MaxIdleConnsPerHost: sc.MaxIdle, KeepAlive: poolKeepAlive, IdleConnTimeout: poolIdleTO, Dial: e.dial}
 	e.t.VerifSetTicker(poolTick)
 	return e
@@ -462,8 +482,8 @@ func runPoolScenario(sc poolScenario) *poolResult {
 		var nominal time.Duration
 		switch f[0] {
 		case "idle":
-			nominal = map[string]time.Duration{"short": poolShort, "medium": poolMedium, "long": poolLong}[f[1]]
-		case "call", "go", "rt", "ping", "stream", "long", "callnb", "finish", "kill", "bounce":
+			nominal = map[string]time.Duration{"short": poolShort, "medium": poolMedium, "long": poolLong, "almost": poolAlmost, "gap": poolGap}[f[1]]
+		case "call", "go", "rt", "ping", "stream", "long", "callnb", "finish", "kill", "bounce", "hookget", "hookrel":
 			nominal = 3 * poolTick // syncTick: three housekeeping periods, which the model counts too
 		}
 		switch f[0] {
@@ -473,6 +493,27 @@ func runPoolScenario(sc poolScenario) *poolResult {
 		case "long":
 			e.syncTick()
 			e.startCall(atoi(f[2]), f[1], "call", true)
+		case "hookget":
+			// a long call that is held between getConn and the call itself (the window no I/O gate bounds)
+			e.syncTick()
+			e.mu.Lock()
+			e.hookArm, e.hookGate = true, make(chan struct{})
+			e.atHook[atoi(f[2])] = true
+			e.mu.Unlock()
+			e.startCall(atoi(f[2]), f[1], "call", true)
+			time.Sleep(2 * time.Millisecond)
+		case "hookrel":
+			e.syncTick()
+			e.mu.Lock()
+			g := e.hookGate
+			e.hookGate = nil
+			delete(e.atHook, atoi(f[1]))
+			e.mu.Unlock()
+			if g == nil {
+				ok = false
+			} else {
+				close(g)
+			}
 		case "callnb":
 			e.syncTick()
 			e.mu.Lock()
@@ -530,6 +571,10 @@ func runPoolScenario(sc poolScenario) *poolResult {
 				time.Sleep(poolMedium)
 			case "long":
 				time.Sleep(poolLong)
+			case "almost":
+				time.Sleep(poolAlmost)
+			case "gap":
+				time.Sleep(poolGap)
 			}
 		case "closeidle":
 			e.t.CloseIdleConnections()
@@ -553,7 +598,7 @@ func runPoolScenario(sc poolScenario) *poolResult {
 				if !c.done && !e.holdCall[k] && !e.nowait[k] {
 					busy = true
 				}
-				if !c.done && e.holdCall[k] && !c.carried {
+				if !c.done && e.holdCall[k] && !c.carried && !e.atHook[k] {
 					// a held call must at least have reached a connection (or failed)
 					busy = true
 				}
@@ -746,7 +791,7 @@ func checkPool(sc poolScenario, r *poolResult) []connVerdict {
 	for i, a := range r.actions {
 		f := strings.Fields(a)
 		switch f[0] {
-		case "call", "go", "rt", "ping", "long", "stream":
+		case "call", "go", "rt", "ping", "long", "stream", "hookget":
 			startAt[atoi(f[2])] = i
 		}
 	}
@@ -813,6 +858,9 @@ func poolCorpus() []poolScenario {
 	mk("stream-sees-the-dead-connection", 1, 1, "call A 1", "kill A", "stream A 2", "stream A 3", "revive A", "stream A 4", "call A 5", "idle long")
 	mk("connection-lost-under-a-call", 2, 2, "long A 1", "bounce A", "call A 2", "long A 3", "long B 4", "bounce A", "finish 4", "call A 5", "idle long")
 	mk("retirement-with-a-full-idle-queue", 4, 1, "long A 1", "long A 2", "long A 3", "long A 4", "finish 1", "finish 2", "finish 3", "finish 4", "idle medium", "idle long", "close")
+	// D12: a housekeeping pass between getConn and the registration of the call, on a connection about to go stale
+	mk("pass-inside-the-handout-window", 1, 1, "call A 1", "idle almost", "hookget A 2", "idle gap", "hookrel 2", "idle long", "finish 2", "idle long")
+	mk("pass-inside-the-handout-window-2", 2, 2, "call A 1", "call B 2", "idle almost", "hookget A 3", "idle gap", "hookrel 3", "call B 4", "idle long", "finish 3", "call A 5", "idle long")
 	mk("multi-addr", 2, 1, "call A 1", "call B 2", "call C 3", "long A 4", "long A 5", "long B 6", "kill B", "call B 7", "finish 4", "finish 5", "idle medium", "revive B", "call B 8", "call A 9", "idle long", "close", "close")
 	mk("close-gated-replacement", 1, 1, "call A 1", "kill A", "revive A", "holdclose", "callnb A 2", "callnb A 3", "relclose", "call A 4")
 	mk("forms", 2, 2, "go A 1", "rt A 2", "ping A 3", "call A 4", "kill A", "go A 5", "rt A 6", "ping A 7", "revive A", "go A 8", "rt A 9", "ping A 10", "call A 11")
